@@ -6,6 +6,7 @@ CHECKS = {
     "C01": prio.check_C01,
     "C02": prio.check_C02,
     "C05": prio.check_C05,
+    "C06": prio.check_C06,
     "C07": prio.check_C07,
     "C15": prio.check_C15,
     "C13": pure.check_C13,
